@@ -73,6 +73,9 @@ var c09Positions = []string{
 	"type R int\nfunc (r R) m(x util.T) {}",
 	"type R int\nfunc (r *R) m(xs ...util.T) {}",
 	"func g[P util.I](x P) {}",
+	"type G[P util.I] int",
+	"type G[P interface{ ~int | util.N }] struct{ V P }",
+	"type G[K comparable, P util.I] map[K]P",
 	"func g[P interface{ ~string | util.N }](x P) {}",
 	"func g[P any](x P, y util.T) {}",
 	"var v util.G[int]",
